@@ -97,7 +97,8 @@ fn run_req(ctx: &Ctx, r: &Req, tag: &str) -> (cli::RunOut, String) {
         args.push("-o".into());
         args.push("/dev/stdout".into());
     }
-    let out = cli::run(&ctx.bin("random_graph_gen"), &args, None, Some(&dir), None, Duration::from_secs(60));
+    let feed = cli::Feed { stdout_tty: !r.to_file && (r.v.unwrap_or(0) + r.e.unwrap_or(0)) % 3 == 2, ..Default::default() };
+    let out = cli::run_fed(&ctx.bin("random_graph_gen"), &args, None, &feed, Some(&dir), None, Duration::from_secs(60));
     let text = if r.to_file { std::fs::read_to_string(&f).unwrap_or_default() } else { out.stdout_str() };
     let _ = std::fs::remove_dir_all(&dir);
     (out, text)
@@ -413,6 +414,76 @@ fn convert_case(ctx: &Ctx, st: &mut Stats, edges: &[(String, String)], undirecte
     }
 }
 
+/// --convert on a LARGE edge list: more than 65 536 distinct vertex names, tens of thousands of
+/// records, no record a reversal or a repetition of another. The output must list exactly the
+/// input's edges, in the input's order, with and without -u.
+fn large_convert_case(ctx: &Ctx, st: &mut Stats, vertices: usize, undirected: bool, tag: &str) {
+    let mut rng = Rng::stream(ctx.seed, "C18.largeconvert", vertices as u64 + undirected as u64);
+    let name = |i: usize| format!("n{}", i);
+    let mut edges: Vec<(usize, usize)> = Vec::new();
+    let mut seen: HashSet<(usize, usize)> = HashSet::new();
+    let mut push = |edges: &mut Vec<(usize, usize)>, a: usize, b: usize| {
+        if a != b && !seen.contains(&(a, b)) && !seen.contains(&(b, a)) {
+            seen.insert((a, b));
+            edges.push((a, b));
+        }
+    };
+    // a matching that introduces every vertex, then edges between early and late vertices in both
+    // "directions of appearance", then random ones
+    for i in (0..vertices - 1).step_by(2) {
+        push(&mut edges, i, i + 1);
+    }
+    for k in 0..3000usize {
+        let (lo, hi) = (rng.usize(70), vertices - 1 - rng.usize(vertices / 8));
+        if k % 2 == 0 { push(&mut edges, lo, hi) } else { push(&mut edges, hi, lo) }
+        push(&mut edges, rng.usize(vertices), rng.usize(vertices));
+        // later records whose end points are what (lo, hi) looks like when the position of a vertex
+        // in order of appearance is narrowed to 16 or 8 bits and packed with the other one
+        if k % 3 == 0 {
+            push(&mut edges, hi & 0xffff, lo | (hi >> 16));
+            push(&mut edges, lo | (hi >> 16), hi & 0xffff);
+            push(&mut edges, hi & 0xff, lo | (hi >> 8));
+        }
+    }
+    let csv: String = edges.iter().map(|(a, b)| format!("{},{}\n", name(*a), name(*b))).collect();
+    let dir = ctx.fresh_dir(&format!("c18-largeconvert-{}", tag));
+    let _ = std::fs::create_dir_all(&dir);
+    let _ = std::fs::write(dir.join("big.csv"), &csv);
+    let mut args = vec!["--convert".to_string(), "big.csv".to_string()];
+    if undirected {
+        args.push("-u".into());
+    }
+    st.evals += 1;
+    let out = cli::run(&ctx.bin("random_graph_gen"), &args, None, Some(&dir), None, Duration::from_secs(300));
+    let _ = std::fs::remove_dir_all(&dir);
+    let case = || json!({"kind": "large-convert", "vertices": vertices, "undirected": undirected, "seed": ctx.seed});
+    let desc = format!("random_graph_gen --convert{} on {} records over {} vertices (no reversed or repeated record)", if undirected { " -u" } else { "" }, edges.len(), vertices);
+    if out.timed_out {
+        st.bump("watchdog(inconclusive case)");
+        return;
+    }
+    if !out.ok() {
+        st.violate("c18.convert", format!("C18:convert-failed:{}", out.panic_site()), format!("{}: {}", desc, out.status_string()), case());
+        return;
+    }
+    let got = match parse_output(&out.stdout_str(), false, undirected) {
+        Ok(e) => e,
+        Err(m) => {
+            st.violate("c18.convert", "C18:convert-unparsable".into(), format!("{}: {}", desc, m), case());
+            return;
+        }
+    };
+    let first_diff = got.iter().zip(edges.iter()).position(|((ga, gb), (a, b))| *ga != name(*a) || *gb != name(*b));
+    if got.len() != edges.len() || first_diff.is_some() {
+        let at = first_diff.unwrap_or(got.len().min(edges.len()));
+        st.violate("c18.convert", "C18:convert-differs".into(), format!("{}: the output has {} edges, the input {}; first difference at record {}: input {:?}, output {:?}", desc, got.len(), edges.len(), at + 1, edges.get(at).map(|(a, b)| (name(*a), name(*b))), got.get(at)), case());
+        return;
+    }
+    st.bump("large_conversions");
+    st.max("max_vertices_converted", vertices as u64);
+    st.nt.insert(mix(0x18_c0, vertices as u64 * 2 + undirected as u64));
+}
+
 fn convert_job(ctx: &Ctx, job: usize, jobs: usize, thorough: bool) -> Stats {
     let mut st = Stats::new();
     let mut rng = Rng::stream(ctx.seed, "C18.convert", job as u64);
@@ -601,8 +672,11 @@ pub fn run(ctx: &Ctx) -> (Stats, Spec) {
             }
         }
     }
+    for (k, (v, u)) in ctx.tier.pick(vec![(66_000usize, true), (70_000, false)], vec![(66_000, true), (70_000, false), (140_000, true), (65_537, true)]).into_iter().enumerate() {
+        large_convert_case(ctx, &mut st, v, u, &format!("{}", k));
+    }
     let spec = Spec {
-        rule: "all (V in 0..6, E in 0..max+2, -u, --dot, stdout or -o) requests and boundary edge counts for V in {11, 17, 40}, LARGE requests (V = 257 .. 1000 [quick] / .. 5000 [thorough]; sparse, dense, complete; -u and directed), feasible ones repeated 10 [quick] / 60 [thorough] times (every run is a fresh random sample; the number of distinct outputs seen is reported), --complete with and without an edge count, missing arguments; --convert (file to convert: a regular file — also one named `-` —, a named pipe or /dev/stdin; output to stdout, to another file, or IN PLACE onto the file being converted, directly or through a symbolic link) on every digraph with <= 3 vertices, random edge lists over 4-5 vertices, and (under -u) ordered pairs of distinct edges over five names of every family (a third of them [quick] / all [thorough]) (shuffled rows; exact duplicates and self-loops without -u; reversed pairs under -u), --colors 0..3 on every loop-free graph with 2..4 (thorough: sampled 5) vertices, with seven vertex-name families (names that collide under joining with '-', '_' or '.'; plain; one name a prefix of another: v1 / v10 / v1X, 1 / 10 / 100; names containing the colour suffix pattern), and --colors on generated complete graphs with 11-12 vertices. distinct = (request, output); non-trivial = 0 < E < max resp. non-empty input.".into(),
+        rule: "all (V in 0..6, E in 0..max+2, -u, --dot, stdout or -o) requests and boundary edge counts for V in {11, 17, 40}, LARGE requests (V = 257 .. 1000 [quick] / .. 5000 [thorough]; sparse, dense, complete; -u and directed), feasible ones repeated 10 [quick] / 60 [thorough] times (every run is a fresh random sample; the number of distinct outputs seen is reported), --complete with and without an edge count, missing arguments; --convert (file to convert: a regular file — also one named `-` —, a named pipe or /dev/stdin; output to stdout, to another file, or IN PLACE onto the file being converted, directly or through a symbolic link) on every digraph with <= 3 vertices, random edge lists over 4-5 vertices, and (under -u) ordered pairs of distinct edges over five names of every family (a third of them [quick] / all [thorough]) (shuffled rows; exact duplicates and self-loops without -u; reversed pairs under -u), --colors 0..3 on every loop-free graph with 2..4 (thorough: sampled 5) vertices, with seven vertex-name families (names that collide under joining with '-', '_' or '.'; plain; one name a prefix of another: v1 / v10 / v1X, 1 / 10 / 100; names containing the colour suffix pattern), --colors on generated complete graphs with 11-12 vertices, and --convert (with and without -u) on edge lists with 66 000 - 140 000 distinct vertex names. distinct = (request, output); non-trivial = 0 < E < max resp. non-empty input.".into(),
         assumptions: vec![
             "uniformity of the random sample is not claimed by the property and not tested".into(),
             "self-loops are not given to --convert -u / --colors, exact duplicates not to --convert -u (their treatment is a convention the statement does not fix); --colors inputs may state an edge twice (the same graph)".into(),
@@ -616,12 +690,19 @@ pub fn run(ctx: &Ctx) -> (Stats, Spec) {
             ("non_colourable_inputs".into(), 50, "--colors hardly exercised on non-colourable inputs".into()),
             ("distinct_outputs".into(), 500, "too few distinct outputs".into()),
             ("large_requests".into(), 5, "large requests not exercised".into()),
+            ("large_conversions".into(), 2, "large edge lists not converted".into()),
         ],
     };
     (st, spec)
 }
 
 pub fn replay(ctx: &Ctx, _monitor: &str, case: &Value, st: &mut Stats) {
+    if case.get("kind").and_then(|k| k.as_str()) == Some("large-convert") {
+        let mut c2 = ctx.clone();
+        c2.seed = case.get("seed").and_then(|j| j.as_u64()).unwrap_or(ctx.seed);
+        large_convert_case(&c2, st, case.get("vertices").and_then(|j| j.as_u64()).unwrap_or(66_000) as usize, case.get("undirected").and_then(|b| b.as_bool()).unwrap_or(true), "replay");
+        return;
+    }
     if case.get("kind").and_then(|k| k.as_str()) == Some("convert") {
         let csv = case.get("csv").and_then(|c| c.as_str()).unwrap_or("");
         let edges: Vec<(String, String)> = csv.lines().filter_map(|l| l.split_once(',').map(|(a, b)| (a.to_string(), b.to_string()))).collect();
